@@ -817,6 +817,42 @@ def check_balance(scn, res):
             bad('branch-queue-grows', f'{queued[addr]} frames are queued on branch {addr} at {t} ms: the splitter keeps feeding a worker that has not asked')
             break
 
+    # request accounting per branch: a frame goes out on a branch only when EVERY synchronized consumer of that branch has a request of its
+    # own READ by the publisher since the previous frame on that branch - a listener's request, or another consumer's, never stands
+    # in for it (scenarios without faults; consumers without scripted start delay, stall or exit; a consumer counts from its first request
+    # on and as long as it has been heard from within the connection time-out)
+    if not scn.get('faults'):
+        by_addr = {}
+
+        for wname, addr in workers.items():
+            f = fs[wname]
+
+            if not (f.get('start_at') or f.get('run') or any(op[0] not in ('slow', 'skip') for op in f.get('ops') or ())):
+                by_addr.setdefault(addr, []).append(wname)
+
+        ct    = scn.get('conn_timeout') or 5000
+        owed  = {}      # consumer -> a request of its own is outstanding
+        heard = {}      # consumer -> time of its last delivered request
+
+        for t, e_, label, info, seq in res.wire:
+            if e_ == 'rcv' and info[0] == 'req' and label.endswith('.req') and 'new' not in (info[3] or ''):      # (a 'new' handshake request registers nobody: it is only answered with HELLO)
+                who, addr = info[1], label.split('>>')[1][:-4]
+
+                if who in by_addr.get(addr, ()):
+                    owed[who], heard[who] = True, t
+
+            elif e_ == 'pub' and info[0] == 'pub' and (info[2] or 0) >= 0 and info[3] == '//':
+                addr = label.split('@')[1]
+
+                if (fs.get(label.split('#')[0], {}).get('config') or {}).get('outputs_balance'):
+                    for who in by_addr.get(addr, ()):
+                        if who in heard and t - heard[who] < ct - 200 and not owed[who]:
+                            bad('branch-fed-without-request', f'id {info[2]} was published on branch {addr} at {t} ms although its synchronized consumer {who} '
+                                f'has not asked since the previous frame on that branch (its last request was read at {heard[who]} ms)')
+                            break
+
+                        owed[who] = False
+
     # the rejoined stream: no frame twice, strictly increasing, one id per set
     last = {}
 
@@ -860,6 +896,15 @@ def check_no_crash(scn, res, pid='C07'):
 
 def oracle_c07(scn, res):
     return check_balance(scn, res) + check_order(scn, res) + check_no_crash(scn, res), outcome(res)
+
+
+def oracle_c05_balanced(scn, res):
+    """Listeners on the branches of a balancing publisher: the load-balancing clauses (each frame on one branch, every synchronized consumer
+    of a branch gets every frame of the branch, duplicate-free ordered rejoin) plus the ephemeral consumers' own clauses."""
+
+    v = [x for x in check_ephemeral(scn, res) if '/sync-stream-changed/' not in x['signature'] and '/sync-incomplete/' not in x['signature']]
+
+    return [{**x, 'signature': x['signature'].replace('C07/', 'C05/', 1)} for x in check_balance(scn, res)] + v + check_no_crash(scn, res, 'C05'), outcome(res)
 
 
 def oracle_c05_any(scn, res):
